@@ -111,6 +111,9 @@ type Features struct {
 	DivZero       bool
 	IndexOOR      bool
 	LoopVarShadow bool
+	// NoMatchBindShadow keeps the variable of a binding match arm fresh (C02: the VM's flat
+	// locals let it overwrite an outer variable of the same name — recorded finding)
+	NoMatchBindShadow bool
 	FieldAbsent   bool
 	Mod           bool
 	NestedReturn  bool
@@ -648,7 +651,7 @@ func (g *G) matchExpr(t Ty, depth int) *Expr {
 	}
 	if scrT == TInt && g.R.Intn(2) == 0 {
 		b := g.fresh("m")
-		if vs := g.varsOf(TInt); len(vs) > 0 && g.R.Intn(2) == 0 {
+		if vs := g.varsOf(TInt); len(vs) > 0 && g.R.Intn(2) == 0 && !g.F.NoMatchBindShadow {
 			b = vs[g.R.Intn(len(vs))] // the pattern variable shadows an outer variable inside its own arm only
 		}
 		g.push()
